@@ -52,6 +52,10 @@ pub fn generate(seed: u64, idx: u64) -> Scenario {
             let e = gen::to_lsp_edit(&cur, cur.len()..cur.len(), piece.clone());
             gen::apply(&mut cur, &e);
             s.change(&uri, vec![e]);
+            if rng.chance(60) {
+                let (m, l, c) = gen::cursor_request(&mut rng, &cur, cur.len());
+                s.request(m, &uri, l, c);
+            }
         }
         let erase = rng.below(30);
         for _ in 0..erase {
@@ -128,11 +132,24 @@ pub fn generate(seed: u64, idx: u64) -> Scenario {
                 steps += 1;
             }
         }
-        if rng.chance(50) {
+        if rng.chance(150) {
             let m = *rng.pick(&METHODS);
             let t = s.text(&uri).cloned().unwrap_or_default();
             let (l, c) = gen::request_position(&mut rng, &t);
             s.request(m, &uri, l, c);
+        }
+    }
+    // feature answers on the final state: they must be those of a freshly opened document
+    if rng.chance(400) {
+        for u in &uris {
+            if let Some(t) = s.text(u).cloned() {
+                for m in METHODS {
+                    if rng.chance(500) {
+                        let (l, c) = gen::request_position(&mut rng, &t);
+                        s.request(m, u, l, c);
+                    }
+                }
+            }
         }
     }
     s.shutdown();
@@ -286,6 +303,10 @@ fn diag_json(doc: &AnalyzedSource) -> Option<Value> {
     ))
 }
 
+pub fn diag_json_pub(doc: &AnalyzedSource) -> Option<Value> {
+    diag_json(doc)
+}
+
 pub fn judge(sc: &Scenario) -> Judgement {
     let mut j = Judgement::default();
     let rec = runner::run(
@@ -414,6 +435,40 @@ pub fn judge(sc: &Scenario) -> Judgement {
             }
         }
     }
+    // "hence every feature answer": the same session with every didChange replaced by
+    // didClose + didOpen of the resulting text must give the same answers
+    let clean_end = matches!(rec.end, Some(tokio::sim::ProcessEnd::MainReturned(true))) && rec.hang.is_none();
+    if !reported && j.violations.is_empty() && rec.task_panics.is_empty() && clean_end {
+        if let Some(fresh_sc) = reopened(sc) {
+            let rec2 = runner::run(&fresh_sc, &RunOptions::default());
+            j.runs.push(RunStats::of(&rec2));
+            let clean2 = matches!(rec2.end, Some(tokio::sim::ProcessEnd::MainReturned(true))) && rec2.hang.is_none() && rec2.task_panics.is_empty();
+            if clean2 {
+                let a = super::c19::canon_responses(sc, &rec);
+                let b = super::c19::canon_responses(sc, &rec2);
+                j.probe("feature answers compared with those of a freshly opened document", a.len().saturating_sub(2) as u64);
+                j.comparisons += a.len() as u64;
+                if let Some(k) = a.iter().zip(b.iter()).position(|(x, y)| x != y) {
+                    let id = a[k].0;
+                    let m = super::c19::method_of(sc, id).unwrap_or("?");
+                    j.violate(
+                        ID,
+                        "feature-answer",
+                        format!("feature-answer {m}"),
+                        format!(
+                            "request id {id} ({m}): after the edit history the server answers {}, a freshly opened document with the same text gives {}",
+                            short(&a[k]),
+                            short(&b[k])
+                        ),
+                    );
+                } else if a.len() != b.len() {
+                    j.notes.push(format!("other-property=C02 {} answers after the history, {} in the reopen run", a.len(), b.len()));
+                }
+            } else {
+                j.notes.push("other-property=C02 the reopen run of this session ended abnormally".into());
+            }
+        }
+    }
     j.probe("valid→valid steps", vv);
     j.probe("valid→broken steps", vb);
     j.probe("broken→valid steps", bv);
@@ -425,6 +480,72 @@ pub fn judge(sc: &Scenario) -> Judgement {
         ));
     }
     j
+}
+
+fn short(r: &super::c19::Resp) -> String {
+    let mut t = match (&r.1, r.2) {
+        (Some(v), _) => v.to_string(),
+        (None, Some(c)) => format!("error {c}"),
+        _ => "nothing".into(),
+    };
+    if t.len() > 300 {
+        let mut cut = 300;
+        while !t.is_char_boundary(cut) {
+            cut -= 1;
+        }
+        t.truncate(cut);
+        t.push('…');
+    }
+    t
+}
+
+/// The same session with every effective didChange replaced by didClose + didOpen of the text
+/// that results from it (so every answer comes from a fresh analysis). `None` if the session
+/// contains no request behind a change.
+pub fn reopened(sc: &Scenario) -> Option<Scenario> {
+    let mut replica = crate::h::client::Replica::default();
+    let mut script = vec![];
+    let mut changed = false;
+    let mut asked = false;
+    for st in &sc.script {
+        match &st.op {
+            ClientOp::Change { uri, .. } => {
+                if replica.docs.contains_key(uri) {
+                    replica.apply(&st.op);
+                    script.push(Step::new(ClientOp::Close { uri: uri.clone() }));
+                    script.push(Step::new(ClientOp::Open {
+                        uri: uri.clone(),
+                        text: replica.docs[uri].clone(),
+                    }));
+                    changed = true;
+                }
+            }
+            other => {
+                replica.apply(other);
+                if changed && matches!(other, ClientOp::Request { .. }) {
+                    asked = true;
+                }
+                script.push(Step::new(other.clone()));
+            }
+        }
+    }
+    if !asked {
+        return None;
+    }
+    Some(Scenario {
+        property: sc.property.clone(),
+        label: "every change replaced by close + open of the resulting text".into(),
+        seed: sc.seed,
+        knobs: Knobs::shipped(),
+        schedule: Schedule {
+            policy: Policy::Fifo,
+            seed: 0,
+        },
+        script,
+        segmentation: Segmentation::Frames,
+        faults: vec![],
+        close_at_end: sc.close_at_end,
+    })
 }
 
 fn strip_nulls(v: &mut Value) {
